@@ -31,7 +31,9 @@ OUT_ITEMS = [
     # module-level names equal to the class attribute / an argument name, to tempt a lookup by simple name
     ("shadow", "att: int = 99\nu: int = 98\n"),
 ]
-EVAL_PREFIX = "from typing import Optional\nVALS = ('a', 'b', {tag!r})\nNUMS = (1, 2, {num})\n"
+EVAL_PREFIX = ("from typing import Optional\nVALS = ('a', 'b', {tag!r})\nNUMS = (1, 2, {num})\n"
+               # evaluated collections with a repeated member / members that are equal across types
+               "DUPS = ('x', {tag!r}, 'x')\nMIXED = (0, False, 1, True, {num})\n")
 IN_LOCS = ["Y", "A.attr", "A.opt", "A.m.a", "A.m.b", "g.a", "g.b", "g.k"]
 OUT_LOCS = ["Q", "AA.att", "AA.mm.u", "AA.mm.v", "gg.u", "gg.v", "gg.w"]
 BAD_IN = ["Z", "A.zz", "g.zz"]
@@ -77,7 +79,9 @@ def build_cases(tier):
     # eval mode (top level only)
     for oi in orders_in:
         for oo in orders_out:
-            for name in ("VALS", "NUMS"):
+            for name in ("VALS", "NUMS", "DUPS", "MIXED"):
+                if name in ("DUPS", "MIXED") and tier == "quick" and oi > 1:
+                    continue
                 for o in OUT_LOCS + BAD_OUT[:1]:
                     cases.append({"oi": oi, "oo": oo, "pairs": [[name, o]], "wrap": False, "eval": True, "via": "api"})
                     if oi * 2 == oo:
@@ -286,7 +290,7 @@ class C14(core.Check):
                 sites.append(site(False, f, fail="addressed_node_missing"))
                 continue
             if case["eval"]:
-                vals = {"VALS": ("a", "b", tag), "NUMS": (1, 2, num)}[p[0]]
+                vals = {"VALS": ("a", "b", tag), "NUMS": (1, 2, num), "DUPS": ("x", tag, "x"), "MIXED": (0, False, 1, True, num)}[p[0]]
                 want = ast.dump(ast.parse("Literal[%s]" % ", ".join(repr(v) for v in vals), mode="eval").body)
             else:
                 ann = annotation_of(inn)
